@@ -37,6 +37,8 @@ type Op struct {
 	XKind string   `json:"xkind,omitempty"`
 	Name  string   `json:"name,omitempty"`
 	Keys  []uint32 `json:"keys,omitempty"`
+	// Span (gcwith): how many of the following operations run while the collector copies
+	Span int `json:"span,omitempty"`
 }
 
 // SideChan is the expected state of a side channel.
@@ -376,6 +378,7 @@ func Gen(t *rapid.T, o GenOpts) Script {
 		st.ApplyWrite(op)
 		return op, true
 	}
+	noGC := 0 // > 0: the next operations run inside a gcwith pass
 	for len(sc.Ops) < nops {
 		var choices []string
 		if len(st.Writers) < 3 {
@@ -409,7 +412,21 @@ func Gen(t *rapid.T, o GenOpts) Script {
 		}
 		if o.GCDelete && o.GC && o.Deletes {
 			choices = append(choices, "gcdel")
+			if noGC == 0 {
+				choices = append(choices, "gcwith", "gcrewrite")
+			}
 		}
+		if noGC > 0 {
+			// the operations that run inside a gcwith pass: no second pass, no reopen
+			kept := choices[:0]
+			for _, c := range choices {
+				if c != "gc" && c != "gcdel" && c != "gcwith" && c != "reopen" {
+					kept = append(kept, c)
+				}
+			}
+			choices = kept
+		}
+		before := len(sc.Ops)
 		kind := rapid.SampledFrom(choices).Draw(t, "kind")
 		switch kind {
 		case "open":
@@ -474,6 +491,69 @@ func Gen(t *rapid.T, o GenOpts) Script {
 			if op, ok := genDelete(t, st); ok {
 				op.Kind = "gcdel"
 				sc.Ops = append(sc.Ops, op)
+			}
+		case "gcrewrite":
+			// While the collector copies: a whole stored stretch of one index group is deleted
+			// and written again, so that the new domains (in other files: the file under
+			// collection is out of the writer pool) cover time ranges the collector has scanned.
+			var groups []uint32
+			for _, ix := range indexes {
+				if !st.groupBusy(ix) && len(st.M.Chans[ix].Cover) > 0 && len(st.M.Chans[ix].Samples) > 0 {
+					groups = append(groups, ix)
+				}
+			}
+			if len(groups) == 0 {
+				continue
+			}
+			ix := rapid.SampledFrom(groups).Draw(t, "rw-group")
+			iv := rapid.SampledFrom(st.M.Chans[ix].Cover).Draw(t, "rw-cover")
+			chans := append([]uint32{ix}, st.M.Dependants(ix)...)
+			sort.Slice(chans, func(a, b int) bool { return chans[a] < chans[b] })
+			// the stretch to delete must be covered by nothing else of the group beyond iv
+			lo, hi := iv.S, iv.E
+			for _, k := range chans {
+				for _, c := range st.M.Chans[k].Cover {
+					if c.S < hi && lo < c.E {
+						if c.S < lo {
+							lo = c.S
+						}
+						if c.E > hi {
+							hi = c.E
+						}
+					}
+				}
+			}
+			del := Op{Kind: "delete", Channels: chans, A: lo, B: hi}
+			all := map[uint32]bool{}
+			for _, k := range chans {
+				all[k] = true
+			}
+			ApplyDelete(st.M, del, all)
+			open := Op{Kind: "open", W: st.NextW, Channels: chans, Start: lo, AutoCommit: true, PersistAlways: rapid.Bool().Draw(t, "rw-persist"), Sync: true}
+			w := st.ApplyOpen(open)
+			wr := Op{Kind: "write", W: open.W, Seed: uint64(rapid.IntRange(0, 1<<20).Draw(t, "rw-seed"))}
+			ts := lo
+			for i, n := 0, rapid.IntRange(1, 4).Draw(t, "rw-n"); i < n && ts < hi && ts < w.Bound; i++ {
+				wr.TS = append(wr.TS, ts)
+				ts += int64(rapid.IntRange(1, 3).Draw(t, "rw-gap"))
+			}
+			if len(wr.TS) == 0 {
+				st.ApplyClose(open.W)
+				sc.Ops = append(sc.Ops, del)
+				continue
+			}
+			st.ApplyWrite(wr)
+			st.ApplyClose(open.W)
+			sc.Ops = append(sc.Ops, Op{Kind: "gcwith", Span: 4}, del, open, wr, Op{Kind: "close", W: open.W})
+		case "gcwith":
+			sp := rapid.IntRange(1, 4).Draw(t, "gcwith-span")
+			sc.Ops = append(sc.Ops, Op{Kind: "gcwith", Span: sp})
+			noGC = sp + 1
+		}
+		if noGC > 0 && len(sc.Ops) > before {
+			noGC -= len(sc.Ops) - before
+			if noGC < 0 {
+				noGC = 0
 			}
 		}
 	}
